@@ -93,6 +93,14 @@ def gen_cases(tier, seed):
                           {'at': 'q', 'act': ['restart_task']}])
             plist.append([{'at': s0, 'act': ['pause', 'p']}, {'at': 'q', 'act': ['abort_task']}, {'at': 'q+', 'act': ['play']}, {'at': 'q', 'act': ['restart_task']},
                           {'at': 'q', 'act': ['resume', ['after']]}])
+        # a burst of requests around one wake-up inside a single loop iteration, before the stepping task has woken up: paused, woken,
+        # played and paused again (each interruption re-arms the wait; what a re-armed wait has been given stays in it)
+        for s0 in range(0, ns + 1):
+            A = lambda *acts: [{'at': s0, 'act': list(a)} for a in acts]  # noqa: E731
+            plist.append(A(['pause', 'p1'], ['resume', ['burst']], ['play'], ['pause', 'p2']) + [{'at': 'q', 'act': ['play']}])
+            plist.append(A(['pause', 'p1'], ['resume', ['burst']], ['pause', 'p2'], ['play']))
+            plist.append(A(['resume', ['burst']], ['pause', 'p1'], ['play'], ['pause', 'p2']) + [{'at': 'q', 'act': ['play']}])
+            plist.append(A(['pause', 'p1'], ['play'], ['resume', ['burst']], ['pause', 'p2'], ['play']))
         # an observer that pauses the process when it is told that it waits (the pause is requested inside the move into the wait)
         for k in (1, 2):
             plist.append([{'at': ['listener', 'waiting', k], 'act': ['pause', 'p']}])
